@@ -692,6 +692,14 @@ func VfVersions() {
 		if err == nil {
 			got, _ := io.ReadAll(g.Body)
 			zzvf.Assert(zzvf.BytesEq(got, v.data), "version-content-is-byte-exact")
+			h, herr := p.HeadObject(vfCtx(), &s3.HeadObjectInput{Bucket: vfStr("bkt"), Key: &key, VersionId: &id})
+			zzvf.Assert(herr == nil, "head-by-version-id-agrees-with-get")
+			if herr == nil {
+				zzvf.Assert(zzvf.And(h.ETag != nil, g.ETag != nil), "head-and-get-by-id-have-etags")
+				if h.ETag != nil && g.ETag != nil {
+					zzvf.Assert(*h.ETag == *g.ETag, "head-by-version-id-has-the-version's-etag")
+				}
+			}
 		}
 	}
 	// the key reads as its newest version
